@@ -13,44 +13,51 @@ LEVEL_NOTE = ("Trusted: Lean 4.33 kernel (axioms per theorem are audited on ever
 
 # property -> (engine, technique, text)
 CLAIMED = {
-    "C01": ("text", "Lean 4 proof over hand-written reader/emitter model (document-level round trip for flat documents; lexer/emitter lemmas for the rest) + differential correspondence + failing-input search",
-            "Theorems (all inputs of the class): for every document made of an envelope and a forest of KEY::scalar lines and ARBITRARILY NESTED BLOCKS (scalars: quoted strings of any characters, bare words, "
-            "booleans, null, integers) the canonical text is accepted by the strict reader, which returns the same document, and canonicalising it again gives the same bytes (C01_tree_canonical_is_readable, "
-            "C01_tree_fixed_point; flat documents: C01_flat_fixed_point); "
-            "one fixed-point step is stable; emit ignores positions. PARTIAL: for documents with sections, lists, comments, META, zones, expressions the document-level statement is an open proof target "
-            "(all in progress) and is backed by the tie only: regenerated lexer/emitter/parser tables pinned by decide facts; exact correspondence (canonical text, strict verdict) of the full "
-            "lexer+parser+emitter transcription on generated documents, the shipped corpus, exhaustive token sequences and mutations; oracle on the real code incl. tools."),
-    "C02": ("text", "Lean 4 proof (content preservation for flat documents; reader value typing; list values at parser level) + content-model oracle + AST correspondence",
-            "Theorems: reading the canonical text of every document made of lines and arbitrarily nested blocks yields exactly its name, keys, nesting, order and values with their types, nothing else "
-            "(C02_tree_content_preserved, C02_flat_content_preserved; strict and lenient entry points, exact parser warnings); parseValue on (nested) list tokens of any length returns exactly the list (C02_nested_list_typed); STRING/NUMBER/BOOLEAN/NULL tokens are read back "
-            "as str/int/float/bool/null for every state and continuation. PARTIAL: sections, comments, META, zones, lists inside documents are backed by the content oracle (content known "
-            "independently of any parser, covering matrix value kind x position) and the correspondence on full ASTs with positions."),
-    "C03": ("text", "Lean 4 proof (convergence of every whitespace/quote spelling of flat documents; emitter is a function of content; alias table; indentation; final newline) + convergence search",
-            "Theorems: every lenient spelling of a flat document — spaces around ::, leading indentation, trailing spaces, blank and whitespace-only lines, quotes around plain words, triple quotes, "
-            "omitted or mis-laid ===END=== — canonicalises to the canonical bytes through both canonicalisers, for all documents and all spellings (C03_flat_converge, C03_flat_spellings_agree); "
-            "emit ignores every source position (any depth); alias normalisation agrees with the regenerated ASCII_ALIASES; block trees are emitted with exactly 2 spaces per level; final newline. "
-            "PARTIAL: alias spellings of expressions, one-line vs multi-line lists and spellings of nested documents (in progress) are decided by the search: independent lenient spellings per "
-            "document incl. the far corner (every site non-canonical) converge byte-for-byte; independent strict-profile recogniser; octave_write(lenient) bytes."),
-    "C04": ("text", "Lean 4 proof (escape/unescape inverse; every quoted or bare string, boolean, null survives emit -> tokenize -> parse inside a flat document) + exhaustive scalar round trip",
-            "Theorems hold for every string of any characters: unescape(escape s) = s; the quoted lexeme re-lexes to ONE STRING token carrying s; a bare word to one IDENTIFIER token; at document level "
-            "(flat documents) the value read back equals the value written (C02_flat_content_preserved). PARTIAL: numbers (int/float re-lex, in progress), list / inline-map / META positions and NFC "
-            "(finding F16) are decided by the exhaustive correspondence: strings <=3 over the class alphabet x 9 positions, random strings, ints to 4300 digits, floats; octave_write changes path."),
-    "C05": ("text", "Lean 4 proof (a zone is tokenised verbatim for every content, marker and tag; no NFC inside fences; verbatim emission) + zone pipelines search",
+    "C01": ("text", "Lean 4 proof over hand-written lexer/parser/emitter model (document-level round trip, construct by construct, all documents of each class) + differential correspondence + failing-input search",
+            "Theorems (all documents of the class; strings of any characters, bare words, booleans, null, integers; any length, any depth): the canonical text is accepted by the strict reader, "
+            "which returns the same document, and canonicalising it again gives the same bytes, for flat documents (C01_flat_fixed_point), arbitrarily nested blocks (C01_tree_fixed_point), META + trees "
+            "(C01_meta_fixed_point), sections with ids 1 / 2b / NAME nested to any depth (C01_sect_fixed_point), expressions with every operator (C01_expr_fixed_point), list values (C01_list_fixed_point), "
+            "comment-bearing trees (emitter+lexer half C01_ctree_emit_then_lex and parser half C02_ctree_document_read; composed where evidence lists C01ctree), and the unified classes where evidence "
+            "lists C01unified / C01document; emit ignores positions. PARTIAL: the classes are proved one family at a time; mixtures outside the listed unified classes, floats inside documents, inline "
+            "maps, holographic values and zones in lists/META (findings C01N5, C01N6) are backed by the tie only: regenerated lexer/emitter/parser tables pinned by decide facts; exact correspondence "
+            "(canonical text, strict verdict) of the full transcription on generated documents, the shipped corpus, exhaustive token sequences and mutations; oracle on the real code incl. tools."),
+    "C02": ("text", "Lean 4 proof (content preservation at document level per construct; comments attached and kept; reader value typing; list values) + content-model oracle + AST correspondence",
+            "Theorems: reading the canonical text of every document of the classes of C01 yields exactly its name, keys, nesting, order, section ids and values with their types, nothing else, through "
+            "the strict and lenient entry points with the exact warning list (C02_flat/_tree/_meta/_sect/_list_content_preserved, ..._lenient_read_silent); every leading, trailing (also empty) and "
+            "end-of-document comment of a tree is attached to its node and read back as written, orphan comments stay in their block (C02_ctree_document_read, C02_comment_orphans, C02_otree_document_read); "
+            "parseValue on (nested) list tokens of any length returns exactly the list (C02_nested_list_typed). PARTIAL: mixtures outside the unified classes, inline maps, holographic values, zones in "
+            "lists are backed by the content oracle (content known independently of any parser, covering matrix value kind x position) and the correspondence on full ASTs with positions."),
+    "C03": ("text", "Lean 4 proof (convergence of every whitespace/quote spelling of flat documents, every alias spelling of expressions, every layout of list values, # section markers) + convergence search",
+            "Theorems: every lenient spelling of a flat document - spaces around ::, leading indentation, trailing spaces, blank and whitespace-only lines, quotes around plain words, triple quotes, "
+            "omitted or mis-laid ===END=== - canonicalises to the canonical bytes through both canonicalisers (C03_flat_converge, C03_flat_spellings_agree); every ASCII-alias spelling of every expression "
+            "converges to the Unicode form (C03_expr_alias_converge, C03_expr_spellings_agree); one-line and one-item-per-line layouts of list values converge (C03_list_layouts_converge, "
+            "C03_list_layouts_agree); # for the section sign (C03_sect_hash_canonicalises); emit ignores every source position; alias table sound and complete; 2 spaces per level; final newline. "
+            "PARTIAL: spellings inside nested documents are decided by the search: independent lenient spellings per document incl. the far corner (every site non-canonical) converge byte-for-byte; "
+            "independent strict-profile recogniser; octave_write(lenient) bytes."),
+    "C04": ("text", "Lean 4 proof (escape/unescape inverse; strings, booleans, null, integers survive emit -> tokenize -> parse inside documents; int/float re-lex) + exhaustive scalar round trip",
+            "Theorems hold for every string of any characters: unescape(escape s) = s; the quoted lexeme re-lexes to ONE STRING token carrying s; a bare word to one IDENTIFIER token; every int within "
+            "CPython's 4300-digit limit and every float repr re-lex to ONE NUMBER token with the same value, beyond the limit a positioned LexerError (C04_int_relex, C04_int_over_limit_refused, "
+            "C04_float_relex under the Env law repr(float(r)) = r); at document level the value read back equals the value written (C02_flat_content_preserved and the classes of C01). PARTIAL: floats "
+            "inside the document classes, inline-map positions and NFC (finding F16) are decided by the exhaustive correspondence: strings <=3 over the class alphabet x 9 positions, random strings, "
+            "ints to 4300 digits, floats; octave_write changes path."),
+    "C05": ("text", "Lean 4 proof (a zone is tokenised, read and re-emitted verbatim for every content, marker and tag; exact guard of finding C05N1) + zone pipelines search",
             "Theorems (every content: tabs, NFD, backslashes, quotes, operators, ===END===, shorter backtick runs): normalisation returns the text unchanged with exactly one span, tabs are accepted "
-            "inside it and only there, the lexer yields FENCE_OPEN / LITERAL_CONTENT / FENCE_CLOSE carrying exactly the content, tag and marker, with no receipt (C05_zone_lexes_verbatim); the emitter "
-            "writes it back verbatim; an empty zone keeps its fence tokens. Finding C05N1 is located in the lexer (content of one empty line is tokenised like the empty zone) with the negation "
-            "proved on the witness. PARTIAL: the parser half / whole round trip (in progress), zones inside blocks and the tool routes are decided by zone-dense generated documents through 9 "
-            "pipelines compared with the generator's model and by the model/implementation zone correspondence."),
-    "C07": ("text", "Lean 4 proof (lexer-level bijection between normalised tokens and normalisation receipts for every input; canonical flat text has none) + receipt bijection search",
+            "inside it and only there, the lexer yields FENCE_OPEN / LITERAL_CONTENT / FENCE_CLOSE carrying exactly the content, tag and marker, with no receipt (C05_zone_lexes_verbatim); the strict "
+            "reader returns the zone with exactly its content (C05_zone_read_verbatim); emit -> read -> emit is a fixed point exactly when the content is not the single empty line "
+            "(C05_zone_fixed_point_partial, C05N1_canon_exact); flat lines after a zone are untouched (C05_zone_neighbours_untouched); at token level any number of zones and lines in any order "
+            "(C05_items_read). PARTIAL: zones after other lines / inside blocks at text level (C05tree where evidence lists it), zones in lists/META and the tool routes are decided by zone-dense "
+            "generated documents through 9 pipelines compared with the generator's model and by the model/implementation zone correspondence."),
+    "C07": ("text", "Lean 4 proof (bijection between normalised tokens and normalisation receipts for every input; exact receipts of every alias spelling; canonical text has none) + receipt bijection search",
             "Theorems (every input text, both lexer modes): the normalisation receipts are, in order, exactly the normalised tokens with original text, replacement and position "
-            "(C07_lexer_receipts_bijection, every_rewrite_has_receipt, every_receipt_has_rewrite); the log is append-only; canonical flat documents yield no normalisation receipt. PARTIAL: parser-level "
-            "rewrites (multi-word values, constructor repairs) and the tool routes (finding C07N1) are decided by the search: expected receipts from the renderer's own layout arithmetic, compared as "
-            "lists with positions; model/implementation receipt lists correspond exactly."),
-    "C20": ("text", "Lean 4 proof (lexer: closure, progress, no hang; parser: no foreign exception escapes) + exhaustive/seeded exception-class correspondence + deterministic cost scaling",
+            "(C07_lexer_receipts_bijection, every_rewrite_has_receipt, every_receipt_has_rewrite); every alias spelling of every expression yields exactly one receipt per alias occurrence and the "
+            "canonical spelling none (C07_expr_alias_receipts, C07_expr_canonical_no_receipts); canonical flat, nested, commented, sectioned, META and list documents yield no normalisation receipt. "
+            "PARTIAL: parser-level rewrites (multi-word values, constructor repairs) and the tool routes (finding C07N1) are decided by the search: expected receipts from the renderer's own layout "
+            "arithmetic, compared as lists with positions; model/implementation receipt lists correspond exactly."),
+    "C20": ("text", "Lean 4 proof (lexer and parser: closure, progress, fuel never exhausted) + exhaustive/seeded exception-class correspondence + deterministic cost scaling",
             "Theorems (every input): only positioned LexerErrors escape tokenize, every iteration consumes input, the fuel is never exhausted; the parser never lets a foreign Python exception escape "
-            "(C20_parser_closed / C20_reader_closed); tools: guard coverage of every stage from the regenerated try/except structure. PARTIAL: parser fuel adequacy (no hang) is in progress; "
-            "C20_tools_total_partial rests on listed exception-free stages; runtime limits (recursion, memory) are outside. Search: exhaustive token sequences, random Unicode, mutations, depth ladders, "
-            "deadline-guarded tool calls (a hang is a failure with the input), scaling on sys.monitoring event counts."),
+            "(C20_parser_closed / C20_reader_closed) and never exhausts its fuel (C20_parser_no_hang, C20_parse_no_hang, C20_parseMetaOnly_no_hang); tools: guard coverage of every stage from the "
+            "regenerated try/except structure. PARTIAL: C20_tools_total_partial rests on listed exception-free stages; runtime limits (recursion, memory) and cost (finding C20N1) are outside. Search: "
+            "exhaustive token sequences, random Unicode, mutations, depth ladders, deadline-guarded tool calls (a hang is a failure with the input), scaling on sys.monitoring event counts."),
 }
 EXTRA = {}  # filled from tools/manifest_extra.json (builders' engines, wired by the lead)
 
@@ -92,7 +99,7 @@ def main():
                      "kind_free_text": "Lean 4 lake project (executable model, generated tables, theorems, JSON-lines driver) + tools/props/*.py correspondence and search"}
                     for e, ps in sorted(engines.items())],
         "checks": checks,
-        "not_applicable": [{"property_id": p["id"], "reason": "not claimed yet: its engine is still being built/validated in this round (no technique switch; see DESIGN.md section 11)"}
+        "not_applicable": [{"property_id": p["id"], "reason": "not claimed (no technique switch; see DESIGN.md section 11)"}
                            for p in props if p["id"] not in claimed],
         "notes": "Checks exit 2 (no VIOLATION line) on infrastructure failure. Known findings: known_findings/<id>.txt. Fix commits in /repo: REPO_FIXES.md.",
     }
